@@ -827,6 +827,7 @@ func main() {
 	outPath := flag.String("out", "", "output .v file (default stdout)")
 	funcsPath := flag.String("funcs", "", "output .v file of the translated function bodies (default: none)")
 	litPath := flag.String("literals", "", "output JSON file listing every string literal of the non-test source (default: none)")
+	dsigDir := flag.String("dsig", "", "directory of goxmldsig/types (default: /repo/vendor or the module cache, version of /repo/go.mod)")
 	flag.Parse()
 
 	root := parseDir(*repo)
@@ -854,6 +855,9 @@ func main() {
 	}
 	emitSchema(&out, "xml_schema", structs,
 		[]string{"Response", "LogoutResponse", "LogoutRequest", "UnverifiedBaseResponse", "Assertion", "EncryptedAssertion"})
+
+	out.WriteString("\n(* ---- encoding/xml schema of the MARSHALLED metadata types (types/metadata.go + goxmldsig/types), with omitempty ---- *)\n")
+	emitMarshalSchema(&out, types, dsigTypesDir(*repo, *dsigDir), "EntityDescriptor")
 
 	out.WriteString("\n(* ---- HTML templates of the POST binding ---- *)\n")
 	emitTemplates(&out, "authn_post", findFunc(root, "SAMLServiceProvider", "buildAuthBodyPostFromDocument"), env)
